@@ -119,16 +119,29 @@ def prune_supersets(acc, tier=None):
     """Free minimisation: enumeration is exhaustive by deviation level, so a violation whose
     deviation set strictly contains the deviation set of another violation of the same
     sub-oracle is dropped (the smaller input already shows it)."""
-    parsed = []
+    from itertools import combinations
+
+    groups = {}
     for fp in acc.viol:
         sub, _, lab = fp.rpartition("|")
-        parsed.append((fp, sub, frozenset(lab.split(",")) if lab != "base" else frozenset()))
+        st = frozenset(lab.split(",")) if lab != "base" else frozenset()
+        groups.setdefault(sub, {})[st] = fp
     drop = set()
-    for fp, sub, s in parsed:
-        for fp2, sub2, s2 in parsed:
-            if fp2 != fp and sub2 == sub and s2 < s:
+    for sub, sets in groups.items():
+        for st, fp in sets.items():
+            if len(st) > 6:
+                continue
+            found = False
+            items = sorted(st)
+            for r in range(len(items)):
+                for combo in combinations(items, r):
+                    if frozenset(combo) in sets:
+                        found = True
+                        break
+                if found:
+                    break
+            if found:
                 drop.add(fp)
-                break
     for fp in drop:
         acc.c["violations_subsumed"] += acc.viol[fp]["count"]
         del acc.viol[fp]
